@@ -192,10 +192,13 @@ class Graph:
             cond = term.get('cnd') if term else None
             # the condition of `if (a && b)` is reported as the whole `a && b`; in the block that ends the
             # evaluation its value is the value of the operand evaluated last (the right-most one)
+            # This is only sound when that operand is evaluated in this very block; a join block that merges the
+            # short-circuit edge with the evaluated edge (do { } while (a && b)) keeps the whole expression.
             hops = 0
+            own_elems = {e for e in b['el'] if isinstance(e, int)}
             while cond is not None and hops < 8:
                 cn = f.nodes[cond]
-                if cn['k'] == 'binop' and cn['op'] in ('&&', '||'):
+                if cn['k'] == 'binop' and cn['op'] in ('&&', '||') and cn['rhs'] in own_elems:
                     cond = cn['rhs']
                     hops += 1
                 else:
